@@ -14,5 +14,5 @@ echo "== demo WITHOUT change (expect ok)"; go test -vet=off -count=1 -run "$RUN"
 git apply $SD/_seed/patch.diff || { echo "PATCH DOES NOT APPLY"; }
 echo "== demo WITH change (expect FAIL)"; go test -vet=off -count=1 -run "$RUN" "$@" ./$PKG/ 2>&1 | tail -4
 for f in $SD/_seed/*_test.go; do rm -f $W/$PKG/$(basename $f); done
-echo "== package's own tests WITH change (expect ok)"; go test -vet=off -count=1 ./$PKG/ 2>&1 | tail -3
+echo "== package's own tests WITH change (expect ok)"; go test -vet=off -count=1 "$@" ./$PKG/ 2>&1 | tail -3
 cd /; git -C /repo worktree remove --force $W >/dev/null 2>&1
